@@ -63,9 +63,17 @@ SubdomainsCarried(pre, post, par) == \A n \in Names(pre.sub) : SubSame(pre, post
 \* names are never invented
 NoNewNames(pre, post) == Names(post.sub) \subseteq Names(pre.sub) /\ Names(post.bnd) \subseteq Names(pre.bnd)
 
+\* valid result: no duplicate vertices, and every vertex is used -- except vertices that were already unused in the
+\* operand (they keep their indices: OldVerticesKept), e.g. stray trailing nodes of a mesh file
+UsedVertices(m) == UNION {VSet(m.t[k]) : k \in DOMAIN m.t}
+ValidRelative(pre, post) ==
+  /\ \A k \in DOMAIN post.t : \A i \in DOMAIN post.t[k] : post.t[k][i] \in DOMAIN post.p
+  /\ \A v, w \in UsedVertices(post) : v # w => post.p[v] # post.p[w]
+  /\ UsedVertices(post) \cup ((DOMAIN pre.p) \ UsedVertices(pre)) = DOMAIN post.p
+
 CommonClauses(e) ==
   LET pre == e.pre post == e.post par == Parents(pre, post) IN
-  [ Valid |-> ValidMesh(post),
+  [ Valid |-> ValidRelative(pre, post),
     NoDegenerate |-> NoDegenerateCells(post),
     Conforming |-> Conforming(post),
     ChildInsideParent |-> ChildInsideParent(par),
